@@ -97,11 +97,20 @@ def _worker(job):
                 opts.append(e)
         data = netgen.serialize(net)
         out.update(desc=net.describe(), opts=opts, features=net_features(net), src_model=data)
-        res = pipeline.compile_net(data, opts, name=f"n{idx}", introspect=False)
+        import writer_stage
+        import wtree
+
+        with writer_stage.capture() as cap:      # the graph as it is right before tflite_writer.write_tflite runs
+            res = pipeline.compile_net(data, opts, name=f"n{idx}", introspect=False)
+        if cap.error:
+            out["wdesc_error"] = cap.error
         out.update(status=res.status, exc=(type(res.exc).__name__ + ": " + str(res.exc))[:300] if res.exc is not None else "",
                    exc_site=pipe_common.exc_site(res.tb, res.exc), stdout_tail=res.stdout[-300:])
         if res.status == "ok" and res.out_model is not None:
             out["out_model"] = res.out_model
+            if cap.desc is not None:
+                out["wdesc"] = cap.desc
+                out["wtree"] = wtree.text(wtree.walk(res.out_model))
             line, _s, o = preserve_dump.preserve_line(data, res.out_model)
             out["line"] = line
             out["walker_view"] = preserve_dump.walker_view(o)
@@ -321,7 +330,7 @@ def replay(ck, path):
 
 def main():
     ck = Check("C11", "other")
-    lean = ck.lean_stage(["VelaVerif.Props.C11"])
+    lean = ck.lean_stage(["VelaVerif.Props.C11", "VelaVerif.Props.C11Writer"])
     common.setup_repo_path()
     pipeline.load_vela()
     if ck.replay_arg:
@@ -340,6 +349,12 @@ def main():
     for r, e, a in bad_order[:3]:
         ck.violation(f"model of the writer's tensor order disagrees with sorted(): {r}: python {e} model {a}",
                      {"request": r, "python": e, "model": a}, found_input=False)
+
+    # ---- the writer and the reader against their models, on generated files (harness/writer_stage.py) ----------
+    import writer_stage
+
+    wstats, wcases = writer_stage.function_stage(ck, 6000 if ck.thorough else 700, 1200 if ck.thorough else 150)
+    n_hash = writer_stage.hashseed_stage(ck, wcases, [1, 2, 3, 4, 5, 6] if ck.thorough else [1, 2, 3], 400 if ck.thorough else 60)
 
     # ---- pipeline artefacts ----------------------------------------------------------------------
     n = 7000 if ck.thorough else 480
@@ -377,6 +392,39 @@ def main():
             rr_owners.append(o)
     answers = ck.model(lines)
     rr_answers = ck.model(rr_lines) if rr_lines else []
+    # the output file against the writer model applied to the graph captured right before serialisation
+    w_owners = [o for o in owners if "wdesc" in o]
+    w_answers = ck.model([x for o in w_owners for x in ("wwrite " + o["wdesc"] + " " + o["wtree"], "wspec " + o["wdesc"] + " " + o["wtree"])])
+    loop_answers = ck.model(["wloop " + o["wdesc"] for o in w_owners])
+    for o, a in zip(w_owners, loop_answers):
+        ck.count("wpipe_loop_" + ":".join(a.split(" ")[0].split(":")[:2]))
+        if (a.startswith("differ") or a.startswith("err:rewrite")) and ck.counters.get("wpipe_loop_reported", 0) < 3:
+            ck.count("wpipe_loop_reported")
+            ck.violation(f"read_write_roundtrip fails on the models for the graph of network {o['idx']} {o['profile']}: {a[:200]}",
+                         dict(replay_of(o), answer=a), found_input=False)
+    for o in owners:
+        if "wdesc_error" in o:
+            ck.count("wpipe_undescribable")
+    w_budget = {}
+    for k, o in enumerate(w_owners):
+        a, sp = w_answers[2 * k], w_answers[2 * k + 1]
+        ck.count("wpipe_" + a.split(" ")[0])
+        ck.count("wpipe_spec_" + sp.split(" ")[0])
+        if not (a.startswith("same") and sp.startswith("ok")):
+            cls = sp.startswith("ok")
+            w_budget[cls] = w_budget.get(cls, 0) + 1
+            if w_budget[cls] > 4:
+                continue
+        if not a.startswith("same"):
+            if not sp.startswith("ok"):
+                ck.violation(f"the written file does not say what the graph handed to the writer says: {sp[:200]} (model vs code: {a[:120]}; "
+                             f"network {o['idx']} {o['profile']} {o['opts']})", dict(replay_of(o), spec=sp, answer=a), found_input=True)
+            else:
+                ck.violation(f"model of the TFLite writer disagrees with the file written for network {o['idx']} {o['profile']}: {a[:200]}; "
+                             f"the Spec accepts the file", dict(replay_of(o), answer=a), found_input=False)
+        elif not sp.startswith("ok"):
+            ck.violation(f"the written file does not say what the graph handed to the writer says: {sp[:200]} (network {o['idx']} {o['profile']} "
+                         f"{o['opts']})", dict(replay_of(o), spec=sp), found_input=True)
     programs = rejected = 0
     nontrivial = set()
     for o, ans, line in zip(owners, answers, lines):
@@ -435,7 +483,10 @@ def main():
     ck.finish({
         "programs": programs,
         "disagreements_checked": rejected,
-        "evaluations": len(outs) + n_align + n_order + n_rt,
+        "evaluations": len(outs) + n_align + n_order + n_rt + wstats["requests"] + n_hash + 2 * len(w_owners),
+        "writer_function_level": wstats,
+        "writer_hashseed_cases": n_hash,
+        "writer_pipeline_files": len(w_owners),
         "distinct_nontrivial": len(nontrivial),
         "align_requests": n_align,
         "live_table_round_trips": n_rt,
